@@ -362,6 +362,15 @@ class RedisStore(MutableMapping):
         Handles key invalidation messages sent by the Redis server.
         """
         keys = message["data"]  # This will contain an array of invalidated keys.        
+        if keys is None:  # Sent when the server's keyspace is flushed.
+            self.cache.clear()
+            return
+        if not isinstance(keys, (list, tuple)):
+            """
+            Not an invalidation message, e.g. the "exit" message published by
+            the stop() method of another RedisStore using the same server.
+            """
+            return
         for k in keys:
             # Keys are passed as an array of binary strings, with prefixes.
             key = self._remove_prefix(k.decode("utf-8"))
